@@ -3,6 +3,9 @@ package main
 import (
 	"fmt"
 	"os"
+	"os/exec"
+	"path/filepath"
+	"regexp"
 	"sync/atomic"
 	"time"
 
@@ -40,6 +43,63 @@ func installHandoverHook() {
 
 var scheduleNames = []string{"natural", "late-abort", "late-background-read"}
 
+// raceChild runs handovers in the -race build; the parent reads the race log.
+func raceChild() {
+	// args: -handover-race-child <seed> <per-mode>
+	os.Setenv("VERIF_SEED", os.Args[2])
+	r := vf.Start("C07", "exploration")
+	r.Replay = "race-child" // do not write evidence from the child
+	var per int
+	fmt.Sscan(os.Args[3], &per)
+	handoverN(r, per)
+	fmt.Printf("race-child handovers_ok=%d violations=%d\n", r.Counter("handovers_ok"), r.ViolationCount())
+}
+
+// handoverRace runs harness B under the race detector and reports races on the session / connection state.
+func handoverRace(r *vf.Run) {
+	bin := os.Getenv("VERIF_RACE_BIN")
+	if bin == "" {
+		r.Inconclusive("VERIF_RACE_BIN not set (race build missing)")
+		return
+	}
+	dir := r.WorkDir()
+	old, _ := filepath.Glob(filepath.Join(dir, "race.log.*"))
+	for _, f := range old {
+		os.Remove(f)
+	}
+	per := r.Pick(10, 60)
+	cmd := exec.Command("timeout", "-s", "QUIT", "900", bin, "-handover-race-child", fmt.Sprint(r.Seed), fmt.Sprint(per))
+	cmd.Env = append(os.Environ(), "GORACE=halt_on_error=0 log_path="+filepath.Join(dir, "race.log"))
+	out, err := cmd.CombinedOutput()
+	os.WriteFile(filepath.Join(dir, "race-child.out"), out, 0o644)
+	m := regexp.MustCompile(`race-child handovers_ok=(\d+) violations=(\d+)`).FindSubmatch(out)
+	if m == nil {
+		r.Inconclusive(fmt.Sprintf("handover race child did not finish (%v); see %s", err, filepath.Join(dir, "race-child.out")))
+		return
+	}
+	var ok int
+	fmt.Sscan(string(m[1]), &ok)
+	r.Count("race_build_handovers_ok", ok)
+	other := map[string]int{}
+	for _, rep := range vf.ParseRaceLogs(filepath.Join(dir, "race.log.*"), "github.com/brutella/hc/") {
+		r.Count("race_reports_total", 1)
+		if rep.HasFrame("hap.(*session)", "hap.(*Connection)") {
+			b := rep.Block
+			if len(b) > 3000 {
+				b = b[:3000]
+			}
+			r.Violation("race:"+rep.Key("github.com/brutella/hc/"), "the race detector reports a data race on the session / connection state during the handover: "+rep.Key("github.com/brutella/hc/"),
+				map[string]interface{}{"report": b, "log": rep.File})
+		} else {
+			other[rep.Key("github.com/brutella/hc/")]++
+		}
+	}
+	if len(other) > 0 {
+		r.Extra("other_races_observed", other)
+	}
+	r.Floor("race_build_handovers_ok", ok, per)
+}
+
 // handover is harness B: the plaintext -> ciphertext switch around the pair-verify M4 response.
 func handover(r *vf.Run) {
 	installHandoverHook()
@@ -59,7 +119,28 @@ func handover(r *vf.Run) {
 		r.Inconclusive("handover: accessory entity not found")
 		return
 	}
-	per := r.Pick(20, 200)
+	handoverRun(r, a, me, acc, r.Pick(20, 200))
+}
+
+// handoverN is the race child's entry: its own transport, per handovers per schedule.
+func handoverN(r *vf.Run, per int) {
+	installHandoverHook()
+	dir := app.ScratchDir(r.WorkDir(), "handover-race")
+	defer os.RemoveAll(dir)
+	me := refctl.NewIdentity("handover-controller", r.Rand("handover-id"))
+	app.StoreController(dir, me)
+	sw := accessory.NewSwitch(accessory.Info{Name: "Handover"})
+	a, err := app.Start(dir, "00102003", sw.Accessory)
+	if err != nil {
+		fmt.Println("transport did not start:", err)
+		return
+	}
+	defer a.Stop()
+	acc, _ := app.AccessoryEntity(dir)
+	handoverRun(r, a, me, acc, per)
+}
+
+func handoverRun(r *vf.Run, a *app.App, me *refctl.Identity, acc app.StoredEntity, per int) {
 	for mode := 0; mode < 3; mode++ {
 		n := per
 		if mode == 0 {
